@@ -68,6 +68,12 @@ def generate(rng, tier, seed):
                    ["init"] + [["next", 0, v] for v in hist],
                    ["threads", ["w", ["block_on", 0]], ["p"] + [["next", 0, v] for v in live] + [last]], ["fini"], ["sched"] + sched]
             cases.append({"scn": scn, "sched": sched, "items": hist + live, "en": list(en) if en != "c" else "c", "pipe": "(hot replay with history)+live"})
+    # ... and its smallest instance under many PCT schedules (the window - a push between the replay of the history and the moment
+    # the awaiter goes live - is hit by about one PCT-3 schedule in a hundred)
+    nr3 = 8000 if thorough else 1500
+    scn = ["conc", ["objects", ["subject", "replay"], ["tovec", ["hot", 0]]], ["init", ["next", 0, 1], ["next", 0, 2]],
+           ["threads", ["w", ["block_on", 0]], ["p", ["next", 0, 99], ["complete", 0]]], ["fini"], ["sched", "pct", 3, seed * 1000 + 13, nr3]]
+    cases.append({"scn": scn, "sched": ["pct", 3, seed * 1000 + 13, nr3], "items": [1, 2, 99], "en": "c", "pipe": "(hot replay with history)+live, smallest"})
     # the SAME Observable value awaited twice in a row (to_vec() twice on one observe_on / subscribe_on pipeline): the second future
     # resolves like the first
     for p in ([["op", "observe_on", [], ["from_iter", 1, 2]], ["op", "subscribe_on", [], ["from_iter", 1, 2]], ["op", "map", [["id"]], ["op", "observe_on", [], ["just", 7]]]]):
